@@ -97,7 +97,8 @@ def _gatt_builder(t, chk):
     with _Pool(max_workers=chk.NCPU) as ex:
         objs = list(ex.map(compile_decl, specs))
     good = [o for o in objs if o]
-    chk.CURRENT.setdefault('notes', {})[t['name']] = {'declarations': len(specs), 'compiled': len(good)}
+    if not replay:
+        chk.CURRENT.setdefault('notes', {})[t['name']] = {'declarations': len(specs), 'compiled': len(good)}
     if len(good) < max(1, len(specs) // 2):
         chk.log('BUILD FAILED: only %d of %d generated declarations compile against the repo' % (len(good), len(specs)))
         bad = [s for s, o in zip(specs, objs) if not o][:1]
